@@ -99,6 +99,42 @@ fn flat_job(kind: FlatKind, inners: Vec<InnerSpec>, form: Form, len: usize) -> J
   .sig(format!("{}:{}", Op1::Flat(kind, vec![]).name(), form_name(form)))
 }
 
+/// "without ... blocking", for a synchronous outer source: once the flattened
+/// stream has failed (an inner observable failed) the outer iterator is not
+/// drained any further — an unbounded one would never return from `subscribe`.
+/// The outer is a pull-counting `from_iter` of 200 selectors; inner 0 is
+/// `[5, complete]`, inner 1 fails.
+fn outer_stops_job(kind: FlatKind, form: Form) -> Job {
+  use InnerSpec::Cold;
+  use NoteSpec::{C, N};
+  let pipe = Pipe::S(Src::IterCount(200)).o1(Op1::Flat(
+    kind,
+    vec![Cold(vec![N(5), C]), Cold(vec![NoteSpec::Err(E::E1)])],
+  ));
+  Job::new(format!("{} {} outer drained after failure?", form_name(form), pipe.show()), move |_ch, obs| {
+    let r = Run::start(&pipe, form);
+    obs.checks += 1;
+    let pulls = Counters::get(&r.cx.ctr.pulls);
+    let got = r.probe.notes();
+    if got != vec![Note::N(V::I(5)), Note::Err(E::E1)] {
+      obs.fail(
+        format!("c05:output:{}:{}", Op1::Flat(kind, vec![]).name(), form_name(form)),
+        format!("{}: expected [5 !E1] got [{}]", pipe.show(), fmt_notes(&got)),
+      );
+    } else if pulls > 3 {
+      obs.fail(
+        format!("c05:outer-drained-after-failure:{}:{}", Op1::Flat(kind, vec![]).name(), form_name(form)),
+        format!(
+          "{}: the stream failed at the second outer item, yet {pulls} items were pulled from the outer iterator (an unbounded outer would never return)",
+          pipe.show()
+        ),
+      );
+    }
+    obs.delivered = got.len() as u64;
+    obs.note_outcome(&(got, pulls.min(4)));
+  })
+}
+
 pub fn plan(tier: Tier) -> Plan {
   use InnerSpec::*;
   use NoteSpec::{C, N};
@@ -130,6 +166,7 @@ pub fn plan(tier: Tier) -> Plan {
         let three = t.iter().any(|i| matches!(i, Hot(2)));
         jobs.push(flat_job(kind, t.clone(), form, if three { len3 } else { len }));
       }
+      jobs.push(outer_stops_job(kind, form));
     }
   }
   Plan {
